@@ -1159,7 +1159,7 @@ let shared_fns =
 (** val postgres_own_fns : (operator * renderfn_id) list **)
 
 let postgres_own_fns =
-  []
+  (Literal, Fn_literal) :: []
 
 type q = { qnum : z; qden : positive }
 
